@@ -798,12 +798,14 @@ class Surface:
         params['k'] = k
 
         def FFp(x, y):
-            # TODO: significantly cheaper without t?
-            r, t = cart_to_polar(x, y, vec_to_grid=False)
-            rsq = r * r
-            z = conic_sag(params['c'], params['k'], rsq)
-            dr = conic_sag_der(params['c'], params['k'], r)
-            dx, dy = surface_normal_from_cylindrical_derivatives(dr, 0, r, t)
+            c, k = params['c'], params['k']
+            rsq = x * x + y * y
+            phi = phi_spheroid(c, k, rsq)
+            z = conic_sag(c, k, rsq, phi=phi)
+            # Cartesian form of dz/dr = c r / phi; finite on the axis, where
+            # the polar form is 0/0
+            dx = c * x / phi
+            dy = c * y / phi
             return z, dx, dy
 
         return cls(typ=typ, P=P, n=n, FFp=FFp, R=R, params=params, bounding=bounding)
@@ -843,11 +845,17 @@ class Surface:
         params['dy'] = dy
 
         def FFp(x, y):
-            r, t = cart_to_polar(x, y, vec_to_grid=False)
             c, k, dx, dy = params['c'], params['k'], params['dx'], params['dy']
-            z = off_axis_conic_sag(c, k, r, t, dx=dx, dy=dy)
-            dr, dt = off_axis_conic_der(c, k, r, t, dx=dx, dy=dy)
-            ddx, ddy = surface_normal_from_cylindrical_derivatives(dr, dt, r, t)
+            # the section is the parent conic about the shifted point; the
+            # Cartesian gradient c x / phi is finite at the section center,
+            # where the polar form is 0/0
+            xp = x + dx
+            yp = y + dy
+            rsq = xp * xp + yp * yp
+            phi = phi_spheroid(c, k, rsq)
+            z = conic_sag(c, k, rsq, phi=phi)
+            ddx = c * xp / phi
+            ddy = c * yp / phi
             return z, ddx, ddy
 
         return cls(typ=typ, P=P, n=n, FFp=FFp, R=R, params=params, bounding=bounding)
